@@ -27,7 +27,8 @@ CHECKS = {
              "Type.subst, get_type, checked_get_type, is_open, strip_comb/args/head, is_comb are proved equal to "
              "their de Bruijn spec functions for all terms (structural induction, memo tables included).",
         note="Trusted: pyvc, z3; ID-INJ (distinct live objects have distinct _id) assumed for identity shortcuts "
-             "and memo tables; hash/order clauses not yet under contract.",
+             "and memo tables. The hash / order clauses (equal terms hash equally also after in-place operations; "
+             "fast_compare is a total order agreeing with ==) are covered by the bounded stand-in c03_hash only.",
         technique="contract-based deductive verification (own ast->z3 VC generator, structural induction, "
                   "z3 recursive functions), native cross-check",
         design='4 C03'),
